@@ -50,6 +50,10 @@ def run(tier):
              ["--accelerator-config", "ethos-u55-32", "--optimise", "Size"], ["--timing"], ["--show-cpu-operations", "--show-subgraph-io-summary"]]
     for i, a in enumerate(extra if tier == "thorough" else extra[:6]):
         jobs.append({"family": FAMS[i % len(FAMS)], "seed": "c13x-%d-%d" % (vlib.seed(), i), "args": a, "capture": False})
+    # the reporting options on models that keep operators on the CPU (omitted optional inputs, odd ranks and types)
+    for i, kind in enumerate(netgen.UNSUPPORTED_KINDS if tier == "thorough" else ["per_axis_fc", "float", "rank0", "dyn_slice", "batch"]):
+        jobs.append({"family": "unsupported:" + kind, "seed": "c13r-%d-%d" % (vlib.seed(), i),
+                     "args": ["--show-cpu-operations", "--show-subgraph-io-summary", "--verbose-operators"][: 1 + i % 3], "capture": False})
     results = compiles.run_all(jobs, timeout=900)
     stat = collections.Counter(r["status"] for r in results)
     fams = collections.Counter(r["job"]["family"] for r in results)
